@@ -46,7 +46,23 @@ pub fn sim_instr(si: &SimInstr) -> Value {
 pub fn res_instr() -> Value { i("RES", 0, 0, 0, 0) }
 
 fn s(k: &str, a: i64, b: i64, c: i64, m: i64, lbl: &str, sv: &str) -> Value {
-    json!({"k": k, "a": a, "b": b, "c": c, "m": m, "lbl": text(lbl), "str": text(sv)})
+    json!({"k": k, "a": a, "b": b, "c": c, "m": m, "lbl": text(lbl), "str": text(sv), "strb": bytes(sv.as_bytes()), "ls": 0, "le": 0})
+}
+/// The span of the label operand of a nucleus, if it has one.
+pub fn label_operand(n: &StmtKind) -> Option<&lc3_ensemble::ast::Label> {
+    fn p<OFF, const N: u32>(p: &PCOffset<OFF, N>) -> Option<&lc3_ensemble::ast::Label> {
+        match p { PCOffset::Label(l) => Some(l), _ => None }
+    }
+    match n {
+        StmtKind::Instr(ai) => match ai {
+            AsmInstr::BR(_, o) | AsmInstr::LD(_, o) | AsmInstr::LDI(_, o) | AsmInstr::LEA(_, o) | AsmInstr::ST(_, o) | AsmInstr::STI(_, o) | AsmInstr::NOP(o) => p(o),
+            AsmInstr::JSR(o) => p(o),
+            _ => None,
+        },
+        StmtKind::Directive(Directive::Fill(o)) => p(o),
+        StmtKind::Directive(Directive::External(l)) => Some(l),
+        _ => None,
+    }
 }
 
 /// (m, value, label) of a PC-offset operand: m = 0 numeric offset, m = 2 label.
@@ -65,6 +81,11 @@ impl<const N: u32> OffGet for lc3_ensemble::ast::Offset<u16, N> { fn getv(&self)
 /// {k, a, b, c, m, lbl, str}.  m: 0 = register/numeric form, 1 = immediate form of
 /// ADD/AND, 2 = label operand (name in lbl).
 pub fn nucleus(n: &StmtKind) -> Value {
+    let mut v = nucleus0(n);
+    if let Some(l) = label_operand(n) { v["ls"] = json!(l.span().start); v["le"] = json!(l.span().end); }
+    v
+}
+fn nucleus0(n: &StmtKind) -> Value {
     match n {
         StmtKind::Instr(ai) => match ai {
             AsmInstr::ADD(dr, sr1, ImmOrReg::Imm(v)) => s("ADD", reg(*dr), reg(*sr1), v.get() as i64, 1, "", ""),
@@ -126,3 +147,38 @@ pub fn guard<T>(f: impl FnOnce() -> T) -> Result<T, ()> {
 thread_local! { pub static IN_GUARD: std::cell::Cell<u32> = const { std::cell::Cell::new(0) }; }
 
 pub fn nucleus_none() -> Value { s("none", 0, 0, 0, 0, "", "") }
+
+// ---------------------------------------------------------------------------
+// object files and symbol tables
+
+use lc3_ensemble::asm::{ObjectFile, SymbolTable};
+
+/// Projection of a symbol table: labels (stored key, address, external flag, source offset),
+/// relocation entries, line table, source text (bytes).  All lists sorted.
+pub fn symtab(st: &SymbolTable) -> Value {
+    let mut labels: Vec<(String, u16, bool, i64)> = st.label_iter()
+        .map(|(k, a, x)| (k.to_string(), a, x, st.verif_label_src_start(k).map(|v| v as i64).unwrap_or(-1))).collect();
+    labels.sort();
+    let mut rel: Vec<(u16, String)> = st.verif_rel_iter().map(|(a, l)| (a, l.to_string())).collect();
+    rel.sort();
+    let lines: Vec<(usize, u16)> = st.line_iter().collect();
+    let (dbg, src) = match st.source_info() { Some(si) => (1, bytes(si.source().as_bytes())), None => (0, json!([])) };
+    json!({
+        "labels": labels.iter().map(|(k, a, x, s)| json!({"k": text(k), "a": a, "x": *x as u8, "src": s})).collect::<Vec<_>>(),
+        "rel": rel.iter().map(|(a, l)| json!([a, text(l)])).collect::<Vec<_>>(),
+        "lines": lines.iter().map(|(l, a)| json!([l, a])).collect::<Vec<_>>(),
+        "dbg": dbg, "src": src,
+    })
+}
+pub fn symtab_none() -> Value { json!({"labels": [], "rel": [], "lines": [], "dbg": 0, "src": []}) }
+
+/// Projection of an object file: blocks (start, words; -1 = reserved word) and symbol table.
+pub fn obj(o: &ObjectFile) -> Value {
+    let blocks: Vec<Value> = o.verif_block_iter()
+        .map(|(s, w)| json!({"s": s, "w": w.iter().map(|x| x.map(|v| v as i64).unwrap_or(-1)).collect::<Vec<_>>()})).collect();
+    match o.symbol_table() {
+        Some(st) => json!({"blocks": blocks, "sym": 1, "st": symtab(st)}),
+        None => json!({"blocks": blocks, "sym": 0, "st": symtab_none()}),
+    }
+}
+pub fn obj_none() -> Value { json!({"blocks": [], "sym": 0, "st": symtab_none()}) }
